@@ -44,6 +44,16 @@ CLAIMS = {
         "note": "Not decided by proof unless listed in the evidence: AppendUnquote and the round-trip lemma, ReformatString's three branches, that no other path writes strings to the output (arshal layer, pre-quoted struct names).",
         "ref": "DESIGN.md §3 C11",
     },
+    "C12": {
+        "text": "Proof of the reformatting leaves and of the safety layer of the recursive reformatter: the whitespace emitters emit only whitespace (AppendIndent: a newline, the prefix and n-1 indents, nothing for n = 0; appendWhitespace; both under the blank-indent invariant WithIndent enforces) and MayAppendDelim/NeedIndent emit exactly the delimiter and indentation the position calls for; ReformatNumber copies the literal verbatim unless canonicalization is requested, and then -0, floats (CanonicalizeRawFloats) and integers of 16 or more characters (CanonicalizeRawInts) are re-rendered by AppendFloat and never copied, while shorter integers (below 2^53, already canonical) are copied; InitializeMultiline/ChangedWhitespace equal their specifications; reformatValue/reformatObject/reformatArray and ReformatString only append to dst, never modify src, keep every index in bounds, enforce the nesting limit before emitting anything of the container, keep the namespace stack balanced on every exit, and pass isVerbatim only for names without escapes.",
+        "note": "Assumed: strconv float parsing/formatting (floats are opaque), AppendFloat is a deterministic function of its numeric arguments. Not decided by proof: that the output's token sequence equals the input's (functional contract of reformatValue/Object/Array and of ReformatString's three branches), Value.format's no-rewrite clause, mustReorderObjectsFromDecoder.",
+        "ref": "DESIGN.md §3 C12",
+    },
+    "C13": {
+        "text": "Proof that CompareUTF16 is, for all well-formed UTF-8 inputs of any length, the lexicographic order of the UTF-16 code units of the two texts (RFC 8785 section 3.2.3): the result equals a specification written over code units (a scalar value below U+10000 is one unit, a supplementary one the pair hi/lo), which covers the ASCII fast path, the mixed BMP/supplementary case and the monotonicity of surrogate encoding; and that ReformatNumber under the canonicalization flags re-renders exactly -0, floats and integers of 16 or more characters through AppendFloat and copies shorter integers.",
+        "note": "Assumed: utf8.DecodeRune, utf16.EncodeRune, cmp.Compare (library contracts validated against the real functions), strconv float formatting. Not decided by proof: the byte-wise tie-break on ill-formed input, objectMember.Compare, the in-place sort and move in mustReorderObjectsFromDecoder (library sort), Canonicalize as a whole.",
+        "ref": "DESIGN.md §3 C13",
+    },
     "C16": {
         "text": "Proof of the position algebra of the coders: decodeBuffer/encodeBuffer offsetAt and previousOffset* are baseOffset plus the buffer position; fetch keeps the absolute offsets of prevStart/prevEnd and of every retained byte (baseOffset' + prevStart' = baseOffset + prevStart, window preserved) and Flush advances baseOffset by exactly the number of bytes the writer accepted, so InputOffset/OutputOffset count the bytes consumed/produced on every path including short writes and failed reads; consumeWhitespace/Literal/String/Number return positions that denote the same absolute offset across any number of refills; the objectNameStack operations (push, pop, clearLast, ReplaceLastQuotedOffset, replaceLastUnquotedName, getUnquoted, copyQuotedBuffer) maintain the representation invariant (local offsets non-decreasing and before remote ones, remote offsets inside the buffer) and copyQuotedBuffer leaves no reference into the buffer, which fetch and Flush both call before the buffer contents move; appendEscapePointerName and AppendUnquote only append.",
         "note": "Not decided by proof: state.appendStackPointer's pointer text against a pointer specification, wrapSyntacticError's mismatched-delimiter rewrite (finding F3, DESIGN.md §5), Pointer.Parent/LastToken/Tokens/unescapePointerToken (strings.* library functions without a first-order contract), SemanticError positions (reflection callers).",
